@@ -39,10 +39,10 @@ def judge_static(sc, cases_path, obs, name='judge'):
     cfg = 'CONSTANTS\n CasesFile = "%s"\n ObsFile = "%s"\n' % (cases_path, obs_path)
     rc, out, dt = core.tlc(sc, 'WireJudge', None, cfg, workers=1, timeout=1800)
     judged = core.tlc_prints(out, 'JUDGED')
-    bad = core.tlc_prints(out, 'BAD')
-    if rc != 0 or not judged or not bad or int(judged[0]) != len(obs):
+    bad = core.tlc_prints(out, 'BADOBS')
+    if rc != 0 or not judged or int(judged[0]) != len(obs):
         raise Broken('judge TLC run failed rc=%s: %s' % (rc, out[-3000:]))
-    idx = set(int(x) - 1 for x in re.findall(r'\d+', bad[0]))
+    idx = set(int(x) - 1 for x in bad)
     log('judge: %d observations, %d rejected (%.1fs)' % (len(obs), len(idx), dt))
     return idx, len(obs)
 
